@@ -106,6 +106,10 @@ fn run(spec: &WorldSpec, ops: &[COp], resolutions: &[bool], ctx: &mut Ctx) -> Re
 			let (msg, loc) = vcore::take_last_panic().unwrap_or_default();
 			if msg.contains("returned Completed while prior updates are still InProgress") && reload_with_landed_writes(&sim) {
 				Err(Failure::new("panic", format!("panic at {}: {}", loc, msg)).with_key("panic/update-completed-while-prior-in-flight"))
+			} else if msg.contains("Attempted to apply ChannelMonitorUpdates out of order") && restarted_b(&sim) {
+				// sibling of the known reload panic: a blocked update of one channel is released by another channel's
+				// completion before the channel's own in-flight updates were replayed
+				Err(Failure::new("panic", format!("panic at {}: {}", loc, msg)).with_key("panic/monitor-update-out-of-order-after-reload"))
 			} else if msg.contains("self.pending_claim_requests.get(&claim_id).is_none()") {
 				// OnchainTxHandler registered two claims with one id (debug assertion)
 				Err(Failure::new("panic", format!("panic at {}: {}", loc, msg)).with_key("panic/onchaintx-duplicate-claim-id"))
@@ -160,6 +164,10 @@ fn reload_with_landed_writes(sim: &Sim) -> bool {
 	}
 	let landed = inflight.iter().any(|(c, id)| ids.iter().any(|(c2, used)| c2 == c && *id <= *used));
 	landed && !in_progress_after
+}
+
+fn restarted_b(sim: &Sim) -> bool {
+	sim.log.iter().any(|(_, e)| matches!(e, SEvent::Restart { node, ok: true, .. } if *node == B))
 }
 
 fn run_inner(spec: &WorldSpec, ops: &[COp], resolutions: &[bool], ctx: &mut Ctx, sim: &mut Sim) -> Result<Outcome, Failure> {
